@@ -159,6 +159,14 @@ def do_op(root: Path, op: str, spelling: str, out_tag: str):
         sd["added"] = 4
         sd.dump(P(f"ld_{out_tag}"))
         return ("data", canon(dictIO.DictReader.read(ld)))
+    if op == "rwr":
+        # read a file, rewrite it through the library under its plain absolute name, read it again under the first spelling:
+        # the second read returns what the file holds now
+        x = root / f"rw_{out_tag}"
+        x.write_text("x  1;\nname  first;\n")
+        dictIO.DictReader.read(P(f"rw_{out_tag}"))
+        dictIO.DictWriter.write({"x": 5, "name": "second"}, x, mode="w")
+        return ("data", canon(dictIO.DictReader.read(P(f"rw_{out_tag}"))))
     if op == "reset":
         dictIO.SDict().reset()
         return None
@@ -166,7 +174,7 @@ def do_op(root: Path, op: str, spelling: str, out_tag: str):
 
 
 PREFIX_OPS = ["read1", "read2", "read3", "write", "parse", "dumpload", "reset", "read1o", "parsex7", "parsex8"]
-OBSERVED = ["parsex7", "parsex8", "read1", "read1o", "read1n", "read2", "read3", "read4", "read5", "read6", "parse6", "write", "writeo", "parse", "parseo", "parsej", "parse4", "dumpload", "writeback", "loaddump"]
+OBSERVED = ["rwr", "parsex7", "parsex8", "read1", "read1o", "read1n", "read2", "read3", "read4", "read5", "read6", "parse6", "write", "writeo", "parse", "parseo", "parsej", "parse4", "dumpload", "writeback", "loaddump"]
 CWDS = [".", "sub", "sub/deep", "other"]
 # every offset of the wrap inside one read of f1 (about 14 placeholders): each placeholder gets id 0 under one of them
 COUNTERS = [-1, 5] + list(range(999984, 1000000))
